@@ -73,3 +73,27 @@ Theorem aliasing_holder_refuted :
   <> spec_answers nat nat (fun v => v) [Alloc nat 1; Build nat 0; Write nat 0 2; Compute nat 0].
 Proof. exact HolderSpec.alias_refuted. Qed.
 Print Assumptions aliasing_holder_refuted.
+
+(* (9) asking an object for the product of the operations it stores for one site / key and step, any number of times:
+   every answer is the product of the operations handed in, and the object is left as it was -- so a second
+   computation with the same control object sees what the first one saw.  The variant that composes in place (a
+   seeded change made to ChainControl) gives the same FIRST answer -- all a single computation ever asks for -- and a
+   different second one. *)
+Theorem stored_product_repeatable :
+  forall (A : Type) (mul : A -> A -> A) (n : nat) (l : list A),
+    ask A (q_pure A mul) n l = (repeat (fst (q_pure A mul l)) n, l).
+Proof.
+  intros A mul n l. induction n as [|n IH]; [reflexivity|].
+  cbn [ask repeat]. destruct l as [|c t]; cbn [q_pure fst] in *; rewrite IH; reflexivity.
+Qed.
+Print Assumptions stored_product_repeatable.
+
+Theorem inplace_first_answer_agrees :
+  forall (A : Type) (mul : A -> A -> A) (l : list A), fst (q_inplace A mul l) = fst (q_pure A mul l).
+Proof. intros A mul [|c t]; reflexivity. Qed.
+Print Assumptions inplace_first_answer_agrees.
+
+Theorem inplace_compose_refuted :
+  exists (l : list nat), fst (ask nat (q_inplace nat Nat.mul) 2 l) <> repeat (fst (q_pure nat Nat.mul l)) 2.
+Proof. exists [2; 3]. vm_compute. discriminate. Qed.
+Print Assumptions inplace_compose_refuted.
